@@ -145,7 +145,12 @@ def unsplit_result(
     """Unsplit a URL without any normalization."""
     if netloc or (scheme and scheme in USES_AUTHORITY) or url[:2] == "//":
         if url and url[:1] != "/":
-            url = f"{scheme}://{netloc}/{url}" if scheme else f"{scheme}:{url}"
+            if netloc:
+                url = f"{scheme}://{netloc}/{url}" if scheme else f"{scheme}:{url}"
+            else:
+                # a rootless path without an authority must stay rootless,
+                # "scheme:///path" would parse back as "/path"
+                url = f"{scheme}:{url}"
         else:
             url = f"{scheme}://{netloc}{url}" if scheme else f"//{netloc}{url}"
     elif scheme:
